@@ -1,0 +1,75 @@
+//go:build verif
+
+package verifapi
+
+import (
+	"github.com/deepteams/webp/internal/lossless"
+	"github.com/deepteams/webp/internal/lossy"
+)
+
+// Re-exports for the ALPH codec (property C07).
+
+// AlphaEncoderConfig is lossy.AlphaEncoderConfig.
+type AlphaEncoderConfig = lossy.AlphaEncoderConfig
+
+// DecodeAlpha is lossy.DecodeAlpha.
+func DecodeAlpha(data []byte, width, height int) ([]byte, error) {
+	return lossy.DecodeAlpha(data, width, height)
+}
+
+// EncodeAlpha is lossy.EncodeAlpha.
+func EncodeAlpha(alpha []byte, width, height int, cfg *AlphaEncoderConfig) ([]byte, error) {
+	return lossy.EncodeAlpha(alpha, width, height, cfg)
+}
+
+// AlphaFilter is the forward prediction filter f (0 none … 3 gradient).
+func AlphaFilter(f int, in []byte, width, height int) []byte {
+	return lossy.VerifAlphaFilter(f, in, width, height)
+}
+
+// AlphaUnfilter is the inverse prediction filter f, in place.
+func AlphaUnfilter(f int, data []byte, width, height int) {
+	lossy.VerifAlphaUnfilter(f, data, width, height)
+}
+
+// AlphaQuantizeLevels is lossy.quantizeLevels (in place).
+func AlphaQuantizeLevels(data []byte, width, height, numLevels int) {
+	lossy.VerifQuantizeLevels(data, width, height, numLevels)
+}
+
+// AlphaGetFilterMap is lossy.getFilterMap.
+func AlphaGetFilterMap(alpha []byte, width, height, filter, effortLevel int) uint32 {
+	return lossy.VerifGetFilterMap(alpha, width, height, filter, effortLevel)
+}
+
+// AlphaEstimateBestFilter is lossy.estimateBestFilter.
+func AlphaEstimateBestFilter(data []byte, width, height int) int {
+	return lossy.VerifEstimateBestFilter(data, width, height)
+}
+
+// AlphaGetNumColors is lossy.getNumColors.
+func AlphaGetNumColors(data []byte, width, height int) int {
+	return lossy.VerifGetNumColors(data, width, height)
+}
+
+// AlphaEncodeInternal is lossy.encodeAlphaInternal.
+func AlphaEncodeInternal(data []byte, width, height, method, filter int,
+	reduceLevels bool, effortLevel int) ([]byte, int, error) {
+	return lossy.VerifEncodeAlphaInternal(data, width, height, method, filter, reduceLevels, effortLevel)
+}
+
+// AlphaVP8LStream is lossy.alphaVP8LStream.
+func AlphaVP8LStream(payload []byte, width, height int) []byte {
+	return lossy.VerifAlphaVP8LStream(payload, width, height)
+}
+
+// LosslessEncodeARGB is lossless.Encode with the configuration
+// {quality, method, NearLosslessQuality: 100} that encodeAlphaInternal builds.
+func LosslessEncodeARGB(argb []uint32, width, height, quality, method int) ([]byte, error) {
+	return lossless.Encode(argb, width, height, &lossless.EncoderConfig{
+		Quality: quality, Method: method, NearLosslessQuality: 100,
+	})
+}
+
+// AlphaSource is the path of internal/lossy/alpha.go in the source tree.
+func AlphaSource() string { return lossy.VerifAlphaSource() }
